@@ -49,6 +49,14 @@ def partEnd (tracks : List C28.Track) (p : PInfo) : Nat :=
     | some tr => max m (C28.mp4ToGo (Int64.ofNat (t.base + (t.samples.map (·.dur)).sum)) tr.ts).toInt.toNat
     | none => m) 0
 
+/-- start (ns) of the last sample of the part: the list span must reach beyond it, or GET with the listed
+    duration would not return the sample -/
+def partLastStart (tracks : List C28.Track) (p : PInfo) : Nat :=
+  p.tracks.foldl (fun m t =>
+    match C28.findTrack tracks t.tid with
+    | some tr => max m (C28.mp4ToGo (Int64.ofNat (t.base + (t.samples.dropLast.map (·.dur)).sum)) tr.ts).toInt.toNat
+    | none => m) 0
+
 def stepCut (cf : CurFile) (k z : Nat) (impl : String) : DrvOut :=
   let F := cf.bytes
   let k := min k F.length
@@ -61,9 +69,22 @@ def stepCut (cf : CurFile) (k z : Nat) (impl : String) : DrvOut :=
     let implGet := (g.drop 4).toString
     let implServed := (sv.drop 7).toString
     if k < H then
-      -- the header itself is cut: no part can be served, nothing to demand (absence of crashes is C28)
+      -- the header itself is cut: no part can be served; the only demand is "no crash" (C28).  A zero-filled
+      -- header has mvhd.Timescale = 0: the C28 model (with any Init oracle) predicts the division by zero.
+      let hm := C28.readHeader C28.cur (C28.refLib .other) img
+      if hm.1 == .panicDiv then
+        if impl == "list=panic:div get=panic:div served=-" then
+          { model := impl, spec := s!"KNOWN zero-header-div crash image with a zero-filled header ({k} bytes + {z} zeros): mvhd.Timescale = 0, integer divide by zero in segmentFMP4ReadHeader (same defect as C28 mvhd-timescale-zero)" }
+        else if implList.startsWith "panic" || implGet.startsWith "panic" then
+          { model := "list=panic:div get=panic:div served=-", spec := "FAIL reader panicked on a crash image: " ++ impl }
+        else { model := "-", spec := if implServed == "-" then "ok" else "FAIL samples served from a segment whose header is incomplete" }
+      else if implList.startsWith "panic" || implGet.startsWith "panic" then
+        { model := "-", spec := "FAIL reader panicked on a crash image: " ++ impl }
+      else
       { model := "-", spec := if implServed == "-" then "ok" else "FAIL samples served from a segment whose header is incomplete" }
     else
+    if implList.startsWith "panic" || implGet.startsWith "panic" then
+      { model := "-", spec := "FAIL reader panicked on a crash image: " ++ impl } else
     let lib := C28.refLib (.ok cf.tracks)
     let lm := C28.parseSegment C28.cur lib img
     let listS := match lm.1 with
@@ -93,7 +114,16 @@ def stepCut (cf : CurFile) (k z : Nat) (impl : String) : DrvOut :=
         s!"list={listS} " ++ getPart implGet implServed
     let model := if model != impl && s!"list={listS} " ++ getPart fixGet.1 fixGet.2 == impl then impl else model
     -- the property on the implementation's answer
-    let needEnd := complete.foldl (fun m p => max m (partEnd cf.tracks p)) 0
+    -- closed segment (header duration present): the true duration, to the millisecond;
+    -- open segment ("the media lost is bounded by the last part"): the span must reach the last sample of
+    -- every complete part but the last one (the duration is taken from the tracks of the last accepted moof
+    -- only, which may end before samples of other tracks in the part before it)
+    let needEnd :=
+      if cf.h.hdrMs != 0 then complete.foldl (fun m p => max m (partEnd cf.tracks p)) 0
+      else complete.foldl (fun m p => max m (partLastStart cf.tracks p)) 0
+    -- what the duration would be if every accepted moof were taken into account (proposed fix)
+    let acceptedParts := cf.parts.filter (fun p => p.off + p.moofLen + 8 ≤ k)
+    let allEnd := acceptedParts.foldl (fun m p => max m (partEnd cf.tracks p)) 0
     let listOk : Bool := complete.isEmpty ||
       (match implList.toNat? with | some d => decide (d + 1000000 > needEnd) | none => false)
     let want := servedOf complete
@@ -101,6 +131,9 @@ def stepCut (cf : CurFile) (k z : Nat) (impl : String) : DrvOut :=
       (implGet == "ok" && (implServed.splitOn want).length > 1)
     let spec :=
       if !listOk then
+        if cf.h.hdrMs == 0 && implList == listS && allEnd + 1000000 > needEnd then
+          s!"KNOWN open-duration-last-moof duration of an unclosed segment is taken from the tracks of the LAST moof only: {implList} ns, but a sample of another track in an earlier complete part starts at {needEnd} ns (list -> get with that duration does not return it)"
+        else
         s!"FAIL list path lost complete parts: duration {implList}, complete parts end at {needEnd}"
       else if getOk then "ok"
       else if !clean then
